@@ -170,6 +170,14 @@ def macro_pairs():
     bname = lambda inner: el('p', 'Hello ', el('b', inner, i18n_name='n'), '!', i18n_translate='')      # noqa: E731
     b = el('div', hide(bname(el('i', 'd'))), '[', bname(el('i', 'F')), '][', bname(el('i', 'd')), ']')
     out.append(('slot-inside-name-block', a, b, [], {}))
+    # 3d a value that is not a string, inserted by a filler that has translation settings of its own
+    a = el('div', hide(macro4 if False else el('p', 'M ', el('i', 'd', define_slot='s'), define_macro='m', i18n_domain='md')),
+           {'tag': 'u', 'children': [el('i', I('msg'), ' ', T('t'), ' ', el('y', content=['text', py('msg')]), fill_slot='s',
+                                        i18n_domain='fd', i18n_context='fc')], 'use_macro': "macros['m']"}, i18n_domain='outer')
+    b = el('div', hide(el('p', 'M ', el('i', 'd'), i18n_domain='md')),
+           el('p', 'M ', el('i', I('msg'), ' ', T('t'), ' ', el('y', content=['text', py('msg')]), i18n_domain='fd', i18n_context='fc'),
+              i18n_domain='md'), i18n_domain='outer')
+    out.append(('message-object-in-filler', a, b, [['msg', 'msgobj', 0]], {}))
     # 4 filler with i18n:attributes and a computed target at the call site (macro without a context of its own)
     macro4 = el('p', T('in-macro'), el('x', el('b', T('slot-default'), define_slot='s'), T('in-macro-2'),
                                        i18n_domain='md', i18n_target="'fr'"), define_macro='m')
